@@ -428,3 +428,20 @@ def c07_11(ctx):
     if not ok:
         ctx.fail(fn, first[0] if first else fn.node, 'cmp does not start with `if x is y: return 0`: identical operands that cannot be ordered natively (None, NaN, mixed containers holding them) are compared with themselves',
                  witness='cmp(None, None); sort([None, 2, None])')
+
+
+@obligation('C07.12', 'PATH dominance', 'length rank of the comparison core of cmp',
+            'values of one type are ranked by length FIRST and only then by content: the (lx < ly, ly < lx) pair must be decided before the dict branch and before the element-wise comparison, for dicts and sequences alike (two dicts of different size compared key by key on their common prefix is neither antisymmetric nor transitive)',
+            axioms=('A1',))
+def c07_12(ctx):
+    prefix, fn = cmp_core(ctx.repo)
+    body = prefix + fn.body
+    ctx.count(1, fn.where())
+    rank = [i for i, s in enumerate(body) if isinstance(s, ast.If) and names_in(s.test) == {'lx', 'ly'} and any(isinstance(r, ast.Return) for r in s.body)]
+    dic = [i for i, s in enumerate(body) if isinstance(s, ast.If) and N(s.test) == 'isinstance(x, dict)']
+    elem = [i for i, s in enumerate(body) if any(isinstance(c, ast.Call) and call_name(c) == 'cmparr' for c in ast.walk(s))]
+    if not rank:
+        ctx.fail(fn, fn.node, 'the length rank (lx < ly / ly < lx) is not decided at the top level of the comparison core: it no longer applies to every kind of value',
+                 witness="cmp({}, {'a': 1}) must be -1 and cmp({'a': 1}, {}) must be 1")
+    elif (dic and rank[0] > dic[0]) or (elem and rank[0] > min(elem)):
+        ctx.fail(fn, body[rank[0]], 'the length rank is decided after the dict branch / the element-wise comparison')
